@@ -108,6 +108,9 @@ type normalizer struct {
 	elig  map[*types.Func]string // "" = eligible, else reason
 	rec   map[*types.Func]bool   // on a static-call cycle
 	orig  map[ast.Node]ast.Node  // clone -> original (for info lookups)
+	// mvRecvType: the saved receiver of a propagated method value (a synthesized identifier) -> the original
+	// receiver expression, whose type it has
+	mvRecvType map[*ast.Ident]ast.Expr
 	seq   int
 	stats *normStats
 	gen   func(token.Pos) bool
@@ -143,6 +146,11 @@ func (n *normalizer) typeOf(e ast.Expr) types.Type {
 	oe, _ := n.o(e).(ast.Expr)
 	if oe == nil {
 		return nil
+	}
+	if id, isId := oe.(*ast.Ident); isId {
+		if ox := n.mvRecvType[id]; ox != nil {
+			return n.info.TypeOf(ox)
+		}
 	}
 	return n.info.TypeOf(oe)
 }
@@ -456,10 +464,14 @@ func (h *hoistScan) visit(slot *ast.Expr) {
 			}
 		}
 		// candidate?
-		if why := h.n.expandable(e, h.st); why == "" {
+		why := h.n.expandable(e, h.st)
+		if why == "" {
 			// its receiver and arguments are evaluated into temps in call order by the expansion
 			h.target = slot
 			return
+		}
+		if debugNormalize && why != "not a static same-package call" {
+			fmt.Fprintf(os.Stderr, "normalize: call of %s not expanded: %s\n", types.ExprString(e.Fun), why)
 		}
 		// an ordinary call: operands first, then the call itself is an effect
 		if sel, ok := ast.Unparen(e.Fun).(*ast.SelectorExpr); ok {
@@ -1350,7 +1362,15 @@ func (n *normalizer) hoistAll(s ast.Stmt, st *inlState) []ast.Stmt {
 		if !changed {
 			break
 		}
-		out = append(out, pre...)
+		// the arguments of the expanded call now stand in declarations of their own: calls among them are
+		// expanded in turn (f(g(x)): g after f)
+		for _, ps := range pre {
+			if ds, isDecl := ps.(*ast.DeclStmt); isDecl && iter < 4 {
+				out = append(out, n.hoistAll(ds, st)...)
+			} else {
+				out = append(out, ps)
+			}
+		}
 		s = ns
 		if s == nil {
 			return out
@@ -1680,7 +1700,7 @@ func (m mapImporter) Import(path string) (*types.Package, error) {
 
 func normalizeOne(p *packages.Package, fset *token.FileSet, gen func(token.Pos) bool, stats *normStats, expand bool) error {
 	n := &normalizer{fset: fset, pkg: p, info: p.TypesInfo, decls: map[*types.Func]*ast.FuncDecl{}, file: map[*ast.FuncDecl]*ast.File{},
-		elig: map[*types.Func]string{}, rec: map[*types.Func]bool{}, orig: map[ast.Node]ast.Node{}, stats: stats, gen: gen}
+		elig: map[*types.Func]string{}, rec: map[*types.Func]bool{}, orig: map[ast.Node]ast.Node{}, mvRecvType: map[*ast.Ident]ast.Expr{}, stats: stats, gen: gen}
 	for _, f := range p.Syntax {
 		for _, d := range f.Decls {
 			if fd, ok := d.(*ast.FuncDecl); ok {
@@ -1731,6 +1751,7 @@ func normalizeOne(p *packages.Package, fset *token.FileSet, gen func(token.Pos) 
 				nb := n.clone(fd.Body).(*ast.BlockStmt)
 				beforeMV := stats.MethodValues
 				n.propagateMethodValues(nb)
+				nb = n.inlineLocalLiterals(nb)
 				st := &inlState{top: obj, sites: nil}
 				if obj != nil {
 					st.ret = obj.Type().(*types.Signature).Results()
@@ -2052,7 +2073,14 @@ func (n *normalizer) propagateMethodValues(body *ast.BlockStmt) {
 		for id, call := range callFun {
 			oid, _ := n.o(id).(*ast.Ident)
 			if oid != nil && n.info.Uses[oid] == c.obj {
-				call.Fun = &ast.SelectorExpr{X: ident(tmp, id.Pos()), Sel: ident(method, id.Pos())}
+				// (the new selector stands for the original method value: same method, same receiver type)
+				nsel := &ast.SelectorExpr{X: ident(tmp, id.Pos()), Sel: ident(method, id.Pos())}
+				n.orig[nsel] = n.o(c.sel)
+				n.orig[nsel.Sel] = n.o(c.sel.Sel)
+				if ox, isExpr := n.o(c.sel.X).(ast.Expr); isExpr {
+					n.mvRecvType[nsel.X.(*ast.Ident)] = ox
+				}
+				call.Fun = nsel
 			}
 		}
 		n.stats.MethodValues++
